@@ -388,8 +388,10 @@ def apiApplyMask (m mask : MapObj) (maskBits : Option Int) (bitArr : Option (Lis
       (match bitArr with
        | none => row.any (· != 0)
        | some l => (List.zipWith (· &&& ·) row (bitvalsToPacked l mask.maxbits)).any (· != 0))
-    | .num n _, none => n != 0
-    | .num n _, some b => intBitop (· &&& ·) mask.kind.dt n b != 0
+    -- (only pixels VALID in the mask map mask: an unset pixel reads as the mask's sentinel, which
+    --  for a signed map is not 0 — after the `fix:` commit)
+    | .num n e, none => n != 0 && mask.vc.valid (.num n e)
+    | .num n e, some b => intBitop (· &&& ·) mask.kind.dt n b != 0 && mask.vc.valid (.num n e)
     | .bool x, none => x
     | .bool x, some b => x && b % 2 != 0
     | _, _ => false
@@ -599,7 +601,12 @@ def apiMultiOp (row : OpRow) (maps : List MapObj) : Except Err MapObj := do
   let anyCov := (List.range first.c.ncov).any fun k =>
     if row.union then maps.any (fun m => covered m.c m.st k) else maps.all (fun m => covered m.c m.st k)
   if !anyCov then
-    return { first with st := makeEmpty first.c first.vc [], cache := none }
+    -- (of the requested output type when there is one — after the `fix:` commit)
+    let kindE : Kind := match parseDTCode row.dtypeOut with
+      | some d => .plain d
+      | none => first.kind
+    return { first with kind := kindE, cache := none,
+                        st := makeEmpty first.c ⟨kindE.blank first.sent, kindE.valid first.sent⟩ [] }
   -- output kind / dtype / sentinel
   let dtOut : DT := match parseDTCode row.dtypeOut with
     | some d => d
